@@ -113,7 +113,7 @@ static verdict_t oracle(const octet* b, size_t n)
 		cn = canon_tag(c, b[0], num);
 		if (cn != i || memcmp(c, b, i) != 0)
 		{
-			v.why = num < 31 ? "tag-long-form-for-small-number" : "tag-leading-zero";
+			v.why = (b[1] & 0x7F) == 0 ? "tag-leading-zero" : "tag-long-form-for-small-number";
 			return v;
 		}
 	}
@@ -216,10 +216,13 @@ static void hexs(char* out, const octet* b, size_t n)
 	out[2 * n] = 0;
 }
 
+static void dump(int partial);
+
 static void on_death(void)
 {
 	char h[20], line[160];
 	int l;
+	dump(1);
 	hexs(h, cur_in, cur_n);
 	l = snprintf(line, sizeof line, "\n{\"crash_index\":%llu,\"input\":\"%s\",\"fn\":\"%s\"}\n", cur_idx, h, cur_fn);
 	if (write(2, line, (size_t)l) < 0)
@@ -276,6 +279,20 @@ static void judge(const char* fn, size_t got, size_t want, const char* why)
 		mismatch(fn, "rejects-valid", why, got, want);
 	else
 		mismatch(fn, "wrong-length", why, got, want);
+}
+
+static void dump(int partial)
+{
+	size_t i;
+	/* the input being processed when the process dies was counted into its class but not finished */
+	for (i = 0; i < cls_n; ++i)
+		printf("{\"class\":\"%s\",\"n\":%llu}\n", cls[i].name, cls[i].n);
+	for (i = 0; i < mis_n; ++i)
+		printf("{\"mismatch\":\"%s\",\"n\":%llu,\"input\":\"%s\",\"got\":\"%s\",\"want\":\"%s\"}\n",
+			mis[i].key, mis[i].n, mis[i].input, mis[i].got, mis[i].want);
+	if (!partial)
+		printf("{\"done\":%llu}\n", cur_idx);
+	fflush(stdout);
 }
 
 /* -------------------------------------------------------------- one input */
@@ -377,7 +394,7 @@ static void one(const octet* in, size_t n)
 		cur_fn = "derTLEnc";
 		r = derTLEnc(0, v.tag, v.ok_tl ? v.len : 0);
 		if (r == SIZE_MAX)
-			enc_ok = 0, mismatch("derTLEnc", "rejects-valid-tag", v.why, r, v.tn + 1);
+			enc_ok = 0, mismatch("derTLEnc", "rejects-valid", v.tn == 3 ? "tag3" : v.tn == 2 ? "tag2" : "tag1", r, v.tn + 1);
 		else if (v.ok_tl)
 		{
 			octet* e = (octet*)malloc(r);
@@ -536,12 +553,7 @@ int main(int argc, char* argv[])
 				}
 			}
 		}
-		for (i = 0; i < cls_n; ++i)
-			printf("{\"class\":\"%s\",\"n\":%llu}\n", cls[i].name, cls[i].n);
-		for (i = 0; i < mis_n; ++i)
-			printf("{\"mismatch\":\"%s\",\"n\":%llu,\"input\":\"%s\",\"got\":\"%s\",\"want\":\"%s\"}\n",
-				mis[i].key, mis[i].n, mis[i].input, mis[i].got, mis[i].want);
-		printf("{\"done\":%llu}\n", cur_idx);
+		dump(0);
 		return 0;
 	}
 	fprintf(stderr, "usage: tl_exhaust run <lo> <hi> <skip> <with_empty> | tl_exhaust oracle\n");
